@@ -68,10 +68,21 @@ def build(template, names, option, raising):
     elif option == 2:
         deco = log_call(include_args=[names[0]])(plain)
     elif option == 3:
-        deco = log_call(include_result=False)(plain)
+        # a configured decorator object is an ordinary value: it may be kept and applied to
+        # several functions, each of which is then logged under its own name
+        quiet = log_call(include_result=False)
+        quiet(_earlier_function)
+        deco = quiet(plain)
     else:
-        deco = log_call(include_args=[])(plain)  # "log none of the arguments"
+        none = log_call(include_args=[])  # "log none of the arguments"
+        none(_earlier_function)
+        deco = none(plain)
     return plain, deco, is_method, src_header
+
+
+def _earlier_function(*args, **kwargs):
+    """Decorated before the function under test by the same configured decorator object."""
+    return None
 
 
 def call_shapes(names):
